@@ -2,13 +2,13 @@ SPECIFICATION DSpec
 CONSTANTS
   MaxOff = 4
   RollAt = 2
-  AutoSync = TRUE
+  AutoSync = FALSE
   MaxDel = 2
   FixRecoverStale = TRUE
   FixShortHdr = TRUE
   FixTailOrder = TRUE
   FreshTmp = TRUE
   KnownRebase = TRUE
-  RecoverFsync = TRUE
+  RecoverFsync = FALSE
 INVARIANTS NoCrashOK DurSane AtRest PowerLoss1 PowerLoss2
 CHECK_DEADLOCK FALSE
